@@ -837,6 +837,12 @@ func (fx *FnExec) instr(in ssa.Instruction) error {
 		}
 		fx.set(x, Val{T: x.Type(), L: tv.L[off : off+n]})
 	case *ssa.IndexAddr:
+		if b, ok := fx.bufs[x.X]; ok {
+			iv := fx.val(x.Index)
+			fx.oblige("idx", "", sAnd(sLe("0", iv.one()), sLt(iv.one(), b.len)), "index in range", x.Pos())
+			fx.set(x, Val{T: x.Type(), Loc: &Loc{Kind: LBufElem, Buf: b, Idx: iv.one(), ElemT: elemOf(x.X.Type())}})
+			return nil
+		}
 		sv := fx.val(x.X)
 		iv := fx.val(x.Index)
 		if isSlice(x.X.Type()) {
@@ -882,6 +888,16 @@ func (fx *FnExec) instr(in ssa.Instruction) error {
 	case *ssa.Lookup:
 		return fx.lookup(x)
 	case *ssa.MakeSlice:
+		if isByteSlice(x.Type()) {
+			n := fx.val(x.Len).one()
+			fx.oblige("makeslice", "", sLe("0", n), "make: non-negative length", x.Pos())
+			name := "L.buf." + x.Name()
+			fx.e.heapSort[name] = "Str"
+			fx.localNames[name] = true
+			fx.heapSet(&fx.cur, name, "Str", app("str_zeros", n))
+			fx.bufs[x] = &bufRef{name: name, off: "0", len: n}
+			return nil
+		}
 		n := fx.val(x.Len).one()
 		et := elemOf(x.Type())
 		out := Val{T: x.Type(), L: []string{tFalse, n}}
@@ -1357,6 +1373,18 @@ func (fx *FnExec) mapUpdate(x *ssa.MapUpdate) {
 }
 
 func (fx *FnExec) sliceOp(x *ssa.Slice) error {
+	if b, ok := fx.bufs[x.X]; ok {
+		lo, hi := "0", b.len
+		if x.Low != nil {
+			lo = fx.val(x.Low).one()
+		}
+		if x.High != nil {
+			hi = fx.val(x.High).one()
+		}
+		fx.oblige("idx", "", sAnd(sLe("0", lo), sLe(lo, hi), sLe(hi, b.len)), "slice bounds (checked against len; cap is not modelled)", x.Pos())
+		fx.bufs[x] = &bufRef{name: b.name, off: sAdd(b.off, lo), len: sSub(hi, lo)}
+		return nil
+	}
 	v := fx.val(x.X)
 	lo, hi := "0", ""
 	if x.Low != nil {
